@@ -39,4 +39,4 @@ def run(res, only=None):
 
 
 def replay(res, path, only=None):
-    return core.generic_replay(res, path, "chain", env_keys=())
+    return core.replay_dispatch(res, path, "chain", env_keys=())
